@@ -36,73 +36,6 @@ Definition peek (p : punct) (ts : list tok) : bool :=
 Definition peek_kw (k : kw) (ts : list tok) : bool :=
   match ts with KW q :: _ => Nat.eqb (kw_code k) (kw_code q) | _ => false end.
 
-Fixpoint parse_ty (fuel : nat) (ts : list tok) {struct fuel} : option (aty * list tok) :=
-  match fuel with
-  | O => None
-  | S f =>
-      match ts with
-      | VAR d i :: r => Some (TVar (AV d i), r)
-      | SELF :: r => Some (TVar ASelf, r)
-      | KW (Kscalar s) :: r => Some (TScalar s, r)
-      | ID n :: r =>
-          if peek PLt r then '(args, r') <- parse_gargs f (tl r) ;; Some (TAdt n args, r')
-          else Some (TAdt n [], r)
-      | P PLParen :: r =>
-          if peek PRParen r then Some (TTuple [], tl r)
-          else
-            '(t, r1) <- parse_ty f r ;;
-            if peek PComma r1 then
-              if peek PRParen (tl r1) then Some (TTuple [t], tl (tl r1))
-              else '(ts', r3) <- parse_tys f (tl r1) ;; Some (TTuple (t :: ts'), r3)
-            else None
-      | P PAmp :: r =>
-          '(l, r1) <- parse_lt r ;;
-          if peek_kw Kmut r1 then '(t, r3) <- parse_ty f (tl r1) ;; Some (TRef true l t, r3)
-          else '(t, r3) <- parse_ty f r1 ;; Some (TRef false l t, r3)
-      | P PStar :: r =>
-          if peek_kw Kmut r then '(t, r3) <- parse_ty f (tl r) ;; Some (TRaw true t, r3)
-          else if peek_kw Kconst r then '(t, r3) <- parse_ty f (tl r) ;; Some (TRaw false t, r3)
-          else None
-      | P PLBracket :: r =>
-          '(t, r1) <- parse_ty f r ;;
-          if peek PRBracket r1 then Some (TSlice t, tl r1)
-          else if peek PSemi r1 then
-            '(c, r2) <- parse_konst (tl r1) ;;
-            if peek PRBracket r2 then Some (TArray t c, tl r2) else None
-          else None
-      | KW Kstr :: r => Some (TStr, r)
-      | P PBang :: r => Some (TNever, r)
-      | _ => None
-      end
-  end
-(** [g (, g)* >] *)
-with parse_gargs (fuel : nat) (ts : list tok) {struct fuel} : option (list agarg * list tok) :=
-  match fuel with
-  | O => None
-  | S f =>
-      '(a, r) <- (if starts_lt ts then '(l, r) <- parse_lt ts ;; Some (GLt l, r)
-                  else match ts with
-                       | NUM n :: r => Some (GCVal n, r)
-                       | _ => '(t, r) <- parse_ty f ts ;; Some (GTy t, r)
-                       end) ;;
-      if peek PComma r then '(l, r'') <- parse_gargs f (tl r) ;; Some (a :: l, r'')
-      else if peek PGt r then Some ([a], tl r)
-      else None
-  end
-(** [t (, t)* )] *)
-with parse_tys (fuel : nat) (ts : list tok) {struct fuel} : option (list aty * list tok) :=
-  match fuel with
-  | O => None
-  | S f =>
-      '(t, r) <- parse_ty f ts ;;
-      if peek PComma r then '(l, r'') <- parse_tys f (tl r) ;; Some (t :: l, r'')
-      else if peek PRParen r then Some ([t], tl r)
-      else None
-  end.
-
-Definition parse_args (fuel : nat) (ts : list tok) : option (list agarg * list tok) :=
-  if peek PLt ts then parse_gargs fuel (tl ts) else Some ([], ts).
-
 (** binder names [_D_i, '_D_(i+1), ... >]: they must be exactly the ones the writer invents *)
 Fixpoint parse_binder_names (fuel D i : nat) (ts : list tok) : option (list kind * list tok) :=
   match fuel with
@@ -124,17 +57,140 @@ Fixpoint parse_binder_names (fuel D i : nat) (ts : list tok) : option (list kind
 Definition parse_params (fuel D i : nat) (ts : list tok) : option (list kind * list tok) :=
   if peek PLt ts then parse_binder_names fuel D i (tl ts) else Some ([], ts).
 
-Definition parse_wc (fuel : nat) (ts : list tok) : option (awc * list tok) :=
+Definition all_lt (ks : list kind) : bool := forallb (kind_eqb KLt) ks.
+
+(** [unsafe? fn ( args ) -> ret] after an optional [for<..>] that bound [nb] lifetimes; [pf]/[pt]
+    parse the arguments / the return type one level deeper *)
+Definition fn_tail (pf : list tok -> option ((list aty * bool) * list tok)) (pt : list tok -> option (aty * list tok))
+           (nb : nat) (ts : list tok) : option (aty * list tok) :=
+  let unsafe := peek_kw Kunsafe ts in
+  let r := if unsafe then tl ts else ts in
+  if (peek_kw Kfn r && peek PLParen (tl r))%bool then
+    '(av, r1) <- pf (tl (tl r)) ;;
+    if peek PArrow r1 then '(ret, r2) <- pt (tl r1) ;; Some (TFn nb unsafe (snd av) (fst av) ret, r2)
+    else None
+  else None.
+
+(** [k]: binder levels open (see [Text.Print.p_ty]) *)
+Fixpoint parse_ty (fuel k : nat) (ts : list tok) {struct fuel} : option (aty * list tok) :=
+  match fuel with
+  | O => None
+  | S f =>
+      match ts with
+      | VAR d i :: r => Some (TVar (AV d i), r)
+      | SELF :: r => Some (TVar ASelf, r)
+      | KW (Kscalar s) :: r => Some (TScalar s, r)
+      | ID n :: r =>
+          if peek PLt r then '(args, r') <- parse_gargs f k (tl r) ;; Some (TAdt n args, r')
+          else Some (TAdt n [], r)
+      | P PLParen :: r =>
+          if peek PRParen r then Some (TTuple [], tl r)
+          else
+            '(t, r1) <- parse_ty f k r ;;
+            if peek PComma r1 then
+              if peek PRParen (tl r1) then Some (TTuple [t], tl (tl r1))
+              else '(ts', r3) <- parse_tys f k (tl r1) ;; Some (TTuple (t :: ts'), r3)
+            else None
+      | P PAmp :: r =>
+          '(l, r1) <- parse_lt r ;;
+          if peek_kw Kmut r1 then '(t, r3) <- parse_ty f k (tl r1) ;; Some (TRef true l t, r3)
+          else '(t, r3) <- parse_ty f k r1 ;; Some (TRef false l t, r3)
+      | P PStar :: r =>
+          if peek_kw Kmut r then '(t, r3) <- parse_ty f k (tl r) ;; Some (TRaw true t, r3)
+          else if peek_kw Kconst r then '(t, r3) <- parse_ty f k (tl r) ;; Some (TRaw false t, r3)
+          else None
+      | P PLBracket :: r =>
+          '(t, r1) <- parse_ty f k r ;;
+          if peek PRBracket r1 then Some (TSlice t, tl r1)
+          else if peek PSemi r1 then
+            '(c, r2) <- parse_konst (tl r1) ;;
+            if peek PRBracket r2 then Some (TArray t c, tl r2) else None
+          else None
+      | KW Kstr :: r => Some (TStr, r)
+      | P PBang :: r => Some (TNever, r)
+      | KW Kfor :: r =>
+          '(ks, r1) <- parse_params f (S k) 0 r ;;
+          match ks with
+          | [] => None
+          | _ => if all_lt ks then fn_tail (parse_fnargs f (S k)) (parse_ty f (S k)) (length ks) r1 else None
+          end
+      | KW Kunsafe :: _ | KW Kfn :: _ => fn_tail (parse_fnargs f (S k)) (parse_ty f (S k)) 0 ts
+      | KW Kdyn :: r =>
+          if peek PPlus r then '(l, r2) <- parse_lt (tl r) ;; Some (TDyn [] l, r2)
+          else '(bs, r1) <- parse_dbounds f (S (S k)) r ;; '(l, r2) <- parse_lt r1 ;; Some (TDyn bs l, r2)
+      | _ => None
+      end
+  end
+(** [g (, g)* >] *)
+with parse_gargs (fuel k : nat) (ts : list tok) {struct fuel} : option (list agarg * list tok) :=
+  match fuel with
+  | O => None
+  | S f =>
+      '(a, r) <- (if starts_lt ts then '(l, r) <- parse_lt ts ;; Some (GLt l, r)
+                  else match ts with
+                       | NUM n :: r => Some (GCVal n, r)
+                       | _ => '(t, r) <- parse_ty f k ts ;; Some (GTy t, r)
+                       end) ;;
+      if peek PComma r then '(l, r'') <- parse_gargs f k (tl r) ;; Some (a :: l, r'')
+      else if peek PGt r then Some ([a], tl r)
+      else None
+  end
+(** [t (, t)* )] *)
+with parse_tys (fuel k : nat) (ts : list tok) {struct fuel} : option (list aty * list tok) :=
+  match fuel with
+  | O => None
+  | S f =>
+      '(t, r) <- parse_ty f k ts ;;
+      if peek PComma r then '(l, r'') <- parse_tys f k (tl r) ;; Some (t :: l, r'')
+      else if peek PRParen r then Some ([t], tl r)
+      else None
+  end
+(** the arguments of a fn pointer up to and including the [)]: [ ) | ... ) | t ) | t , <more> ] *)
+with parse_fnargs (fuel k : nat) (ts : list tok) {struct fuel} : option ((list aty * bool) * list tok) :=
+  match fuel with
+  | O => None
+  | S f =>
+      if peek PRParen ts then Some (([], false), tl ts)
+      else if peek PDots ts then (if peek PRParen (tl ts) then Some (([], true), tl (tl ts)) else None)
+      else
+        '(t, r) <- parse_ty f k ts ;;
+        if peek PComma r then '(av, r') <- parse_fnargs f k (tl r) ;; Some ((t :: fst av, snd av), r')
+        else if peek PRParen r then Some (([t], false), tl r)
+        else None
+  end
+(** [B + (B +)*] up to (excluding) the lifetime *)
+with parse_dbounds (fuel k : nat) (ts : list tok) {struct fuel} : option (list adbound * list tok) :=
+  match fuel with
+  | O => None
+  | S f =>
+      '(ks, r0) <- (if peek_kw Kforall ts then
+                      '(ks, r0) <- parse_params f k 0 (tl ts) ;; match ks with [] => None | _ => Some (ks, r0) end
+                    else Some ([], ts)) ;;
+      match r0 with
+      | ID tr :: r1 =>
+          '(args, r2) <- (if peek PLt r1 then parse_gargs f k (tl r1) else Some ([], r1)) ;;
+          if peek PPlus r2 then
+            if starts_lt (tl r2) then Some ([DB ks tr args], tl r2)
+            else '(l, r3) <- parse_dbounds f k (tl r2) ;; Some (DB ks tr args :: l, r3)
+          else None
+      | _ => None
+      end
+  end.
+
+Definition parse_args (fuel k : nat) (ts : list tok) : option (list agarg * list tok) :=
+  if peek PLt ts then parse_gargs fuel k (tl ts) else Some ([], ts).
+
+Definition parse_wc (fuel k : nat) (ts : list tok) : option (awc * list tok) :=
   if starts_lt ts then
     '(a, r) <- parse_lt ts ;;
     if peek PColon r then '(b, r2) <- parse_lt (tl r) ;; Some (WLtOut a b, r2) else None
   else
-    '(t, r) <- parse_ty fuel ts ;;
+    '(t, r) <- parse_ty fuel k ts ;;
     if peek PColon r then
       let r1 := tl r in
       if starts_lt r1 then '(l, r2) <- parse_lt r1 ;; Some (WTyOut t l, r2)
       else match r1 with
-           | ID tr :: r2 => '(args, r3) <- parse_args fuel r2 ;; Some (WImpl t tr args, r3)
+           | ID tr :: r2 => '(args, r3) <- parse_args fuel k r2 ;; Some (WImpl t tr args, r3)
            | _ => None
            end
     else None.
@@ -143,9 +199,9 @@ Definition parse_qwc (fuel D : nat) (ts : list tok) : option (aqwc * list tok) :
   if peek_kw Kforall ts then
     if peek PLt (tl ts) then
       '(ks, r1) <- parse_binder_names fuel D 0 (tl (tl ts)) ;;
-      '(w, r2) <- parse_wc fuel r1 ;; Some ((ks, w), r2)
+      '(w, r2) <- parse_wc fuel D r1 ;; Some ((ks, w), r2)
     else None
-  else '(w, r2) <- parse_wc fuel ts ;; Some (([], w), r2).
+  else '(w, r2) <- parse_wc fuel D ts ;; Some (([], w), r2).
 
 (** [q (, q)*], ends at the first token that is not a comma *)
 Fixpoint parse_qwcs (n fuel D : nat) (ts : list tok) : option (list aqwc * list tok) :=
@@ -162,6 +218,8 @@ Definition parse_where (fuel D : nat) (ts : list tok) : option (list aqwc * list
 
 Fixpoint parse_attrs (ts : list tok) : list kw * list tok :=
   match ts with
+  | P PHash :: P PLBracket :: KW Krepr :: P PLParen :: KW k :: P PRParen :: P PRBracket :: r =>
+      let '(l, r') := parse_attrs r in (k :: l, r')
   | P PHash :: P PLBracket :: KW k :: P PRBracket :: r => let '(l, r') := parse_attrs r in (k :: l, r')
   | _ => ([], ts)
   end.
@@ -178,7 +236,7 @@ Definition kws_of (l : list (bool * kw)) : list kw := map snd (filter fst l).
 
 Definition sflags_kws (fl : sflags) : list kw :=
   kws_of [(fl.(sf_upstream), Kupstream); (fl.(sf_fundamental), Kfundamental); (fl.(sf_phantom_data), Kphantom_data);
-          (fl.(sf_one_zst), Kone_zst)].
+          (fl.(sf_one_zst), Kone_zst); (fl.(sf_repr_c), KC); (fl.(sf_repr_packed), Kpacked)].
 Definition tflags_kws (fl : tflags) : list kw :=
   kws_of [(fl.(tf_auto), Kauto); (fl.(tf_marker), Kmarker); (fl.(tf_upstream), Kupstream);
           (fl.(tf_fundamental), Kfundamental); (fl.(tf_non_enumerable), Knon_enumerable);
@@ -192,7 +250,7 @@ Fixpoint parse_fields (n fuel i : nat) (ts : list tok) : option (list aty * list
       match ts with
       | FIELD j :: r =>
           if (Nat.eqb j i && peek PColon r)%bool then
-            '(t, r1) <- parse_ty fuel (tl r) ;;
+            '(t, r1) <- parse_ty fuel 1 (tl r) ;;
             if peek PComma r1 then '(l, r3) <- parse_fields n' fuel (S i) (tl r1) ;; Some (t :: l, r3)
             else if peek PRBrace r1 then Some ([t], tl r1)
             else None
@@ -206,7 +264,8 @@ Definition expect_braces (ts : list tok) : option (list tok) :=
 
 Definition sflags_of (at_ : list kw) : sflags :=
   {| sf_upstream := has_kw Kupstream at_; sf_fundamental := has_kw Kfundamental at_;
-     sf_phantom_data := has_kw Kphantom_data at_; sf_one_zst := has_kw Kone_zst at_ |}.
+     sf_phantom_data := has_kw Kphantom_data at_; sf_one_zst := has_kw Kone_zst at_;
+     sf_repr_c := has_kw KC at_; sf_repr_packed := has_kw Kpacked at_ |}.
 Definition tflags_of (at_ : list kw) : tflags :=
   {| tf_auto := has_kw Kauto at_; tf_marker := has_kw Kmarker at_; tf_upstream := has_kw Kupstream at_;
      tf_fundamental := has_kw Kfundamental at_; tf_non_enumerable := has_kw Knon_enumerable at_;
@@ -266,9 +325,9 @@ Definition parse_impl (fuel : nat) (at_ : list kw) (r : list tok) : option (aite
     let r2 := if positive then r1 else tl r1 in
     match r2 with
     | ID tr :: r3 =>
-        '(args, r4) <- parse_args fuel r3 ;;
+        '(args, r4) <- parse_args fuel 1 r3 ;;
         if peek_kw Kfor r4 then
-          '(self, r6) <- parse_ty fuel (tl r4) ;;
+          '(self, r6) <- parse_ty fuel 1 (tl r4) ;;
           '(wcs, r7) <- parse_where fuel 2 r6 ;;
           'r8 <- expect_braces r7 ;; Some (IImpl ps up positive tr args self wcs, r8)
         else None
@@ -408,6 +467,12 @@ Section Resolve.
     | TArray t c => 't' <- r_ty scopes t ;; 'c' <- r_konst scopes c ;; Some (TArray t' c')
     | TStr => Some TStr
     | TNever => Some TNever
+    | TFn nb unsafe variadic args ret =>
+        'args' <- omap (r_ty (scopes ++ [repeat KLt nb])) args ;;
+        'ret' <- r_ty (scopes ++ [repeat KLt nb]) ret ;; Some (TFn nb unsafe variadic args' ret')
+    | TDyn bounds l =>
+        'bs <- omap (r_dbound (scopes ++ [[]])) bounds ;;
+        'l' <- r_lt scopes l ;; Some (TDyn bs l')
     end
   with r_garg (scopes : list (list kind)) (a : agarg) {struct a} : option igarg :=
     match a with
@@ -419,6 +484,14 @@ Section Resolve.
     | GLt l => 'l' <- r_lt scopes l ;; Some (GLt l')
     | GCVal n => Some (GCVal n)
     | GCVar c => match c with end
+    end
+  (** the level of the hidden self type is open but has no name: it is the empty scope *)
+  with r_dbound (scopes : list (list kind)) (b : adbound) {struct b} : option idbound :=
+    match b with
+    | DB ks tr args =>
+        'h <- find_header tr traits ;;
+        'args' <- omap (r_garg (scopes ++ [ks])) args ;;
+        if kinds_eqb (map kclass h.(h_kinds)) (map garg_kind args') then Some (DB ks h.(h_id) args') else None
     end.
 
   Definition r_trait_ref (scopes : list (list kind)) (tr : N) (args : list agarg) : option (nat * list igarg) :=
@@ -442,11 +515,11 @@ End Resolve.
 Definition r_item (structs traits : list header) (it : aitem) : option iitem :=
   match it with
   | IStruct name ps fl fields wcs =>
-      'fs <- omap (r_ty structs false [ps]) fields ;;
+      'fs <- omap (r_ty structs traits false [ps]) fields ;;
       'ws <- omap (r_qwc structs traits false [ps]) wcs ;;
       Some (IStruct name ps fl fs ws)
   | IEnum name ps fl variants wcs =>
-      'vs <- omap (omap (r_ty structs false [ps])) variants ;;
+      'vs <- omap (omap (r_ty structs traits false [ps])) variants ;;
       'ws <- omap (r_qwc structs traits false [ps]) wcs ;;
       Some (IEnum name ps fl vs ws)
   | ITrait name ps fl wcs =>
@@ -454,7 +527,7 @@ Definition r_item (structs traits : list header) (it : aitem) : option iitem :=
       Some (ITrait name ps fl ws)
   | IImpl ps up pos tr args self wcs =>
       'ta <- r_trait_ref structs traits false [ps] tr args ;;
-      'self' <- r_ty structs false [ps] self ;;
+      'self' <- r_ty structs traits false [ps] self ;;
       'ws <- omap (r_qwc structs traits false [ps]) wcs ;;
       Some (IImpl ps up pos (fst ta) (snd ta) self' ws)
   end.
